@@ -411,7 +411,64 @@ def check_san(pid, tier, seed):
     chk.finish()
 
 
-CHECKS = {"C08": check_hash, "C11": check_fen, "C12": check_san, "C01": check_rules, "C02": check_rules, "C10": check_rules, "C05": check_eval, "C13": check_eval}
+# ------------------------------------------------------------------------------ C09 / C20
+
+def check_magic(pid, tier, seed):
+    chk = Check(pid, tier, seed, "exploration")
+    wd = workdir(pid)
+    wvbin = build()
+    quick = tier == "quick"
+    from concurrent.futures import ThreadPoolExecutor
+    jobs = []
+    nsh = 16
+    modes = ["full"] if quick else ["full", "relevant"]
+    for mode in modes:
+        for i in range(nsh):
+            jobs.append((mode, i * 4, i * 4 + 3, os.path.join(wd, "magic_%s_%02d.ndjson" % (mode, i))))
+
+    def gen(j):
+        mode, lo, hi, path = j
+        o = wv(wvbin, ["magic", "--mode", mode, "--sq-lo", lo, "--sq-hi", hi, "--random", 150 if quick else 3000, "--seed", seed * 100 + lo, "--out", path])
+        return json.loads(o.strip().splitlines()[-1])["occupancies"]
+    with ThreadPoolExecutor(max_workers=NPROC) as ex:
+        occs = list(ex.map(gen, jobs))
+    res = tlc_many([dict(module="MagicTrace", trace=j[3], xmx="4g") for j in jobs])
+    chk.add_tlc(res)
+    fold_diags(chk, res, pid)
+    for r in res:
+        for d in r["diags"]:
+            if d.get("prop") == "TOOL":
+                tool_error("enumeration rejected by the specification: %s" % json.dumps(d))
+    sample = read_events(jobs[0][3])[1]
+    chk.coverage.update({"evaluations": sum(occs), "distinct_nontrivial": sum(occs), "exhaustive": True,
+                         "rule": "for each of the 64 squares and rook/bishop: every subset of the squares on the piece's rays (edge squares included; %s), enumeration checked for completeness by MagicTrace (ray squares equal the specification's, blocks distinct, count = 2^(r-k)); plus random full-board occupancies for rook/bishop/queen through both entry points and the fixed knight/king/pawn sets for both colours; every occupancy is distinct" % ", ".join(modes),
+                         "samples": [{"piece": sample["piece"], "sq": sample["sq"], "hi": sample["hi"], "first_answers": sample["res"][:3]}],
+                         "traces_validated_against_impl": len(jobs)})
+    chk.assumptions += ["Chess.tla ray geometry (Rays, jump tables)"]
+    chk.finish()
+
+
+def check_movevalue(pid, tier, seed):
+    chk = Check(pid, tier, seed, "exploration")
+    wd = workdir(pid)
+    wvbin = build()
+    path = os.path.join(wd, "mv.ndjson")
+    info = json.loads(wv(wvbin, ["movevalue", "--out", path]).strip().splitlines()[-1])
+    model_check(chk, "MoveValue", cfg="MoveValueAlg", workers=2)
+    shards = shard(path, NPROC * 2)
+    res = tlc_many([dict(module="MoveValue", trace=p, xmx="4g") for p in shards])
+    chk.add_tlc(res)
+    fold_diags(chk, res, pid)
+    nev = sum(r["accepted"] or 0 for r in res)
+    first = json.loads(open(path).readline())
+    chk.coverage.update({"evaluations": info["moves"], "distinct_nontrivial": info["moves"], "exhaustive": True, "events_validated": nev,
+                         "rule": "the whole constructor domain: 2 colours x 6 kinds x 64 origins x 64 destinations x {no capture, 5 kinds} x {no promotion, 4 kinds} through by_moving/by_capturing/by_promoting/by_capture_promoting, all 2x64x64 by_en_passant values and the 4 castling values; each value built twice (equality), compared with its neighbour (inequality), serialised through ciborium and read back; raw values pairwise distinct per event; every value is a distinct case",
+                         "samples": [{"ctor": first["ctor"], "color": first["color"], "piece": first["piece"], "from": first["from"], "strs": first["strs"][:4]}],
+                         "traces_validated_against_impl": len(shards)})
+    chk.finish()
+
+
+CHECKS = {"C09": check_magic, "C20": check_movevalue, "C08": check_hash, "C11": check_fen, "C12": check_san, "C01": check_rules, "C02": check_rules, "C10": check_rules, "C05": check_eval, "C13": check_eval}
 
 
 def main():
